@@ -903,6 +903,54 @@ func (c *codeGen) snippet(allowLoop bool) {
 	}
 }
 
+// stackLimit fills the operand stack to the limit of 1024 (or one / two below) and
+// executes an instruction there: one that grows the stack must fail exactly when no
+// room is left, one that does not must run; a store makes the outcome observable.
+func (c *codeGen) stackLimit() {
+	t := c.t()
+	g := c.g
+	var grow, keep []byte
+	for i := 0; i < 256; i++ {
+		op := byte(i)
+		inf := g.tab[op]
+		if !inf.Defined || structuralOps[op] || (op >= RSVJNAL && op <= VRJNAL) || op == CREATE || op == CREATE2 || (op >= CALL && op <= CALLCODE) || op == DELEGATECALL || op == STATICCALL || op == SELFDESTRUCT {
+			continue
+		}
+		if op >= PUSH1 && op <= PUSH32 {
+			continue // immediates are handled below
+		}
+		if inf.Pushes > inf.Pops && inf.Pops == 0 {
+			grow = append(grow, op)
+		} else if inf.Pushes == inf.Pops && inf.Pops == 1 {
+			keep = append(keep, op)
+		}
+	}
+	room := uniform(t, 0, 2, "slroom") // free slots left when the instruction executes
+	for c.h < 1024-room {
+		c.a.Push(uint64(7))
+		c.h++
+	}
+	ops := grow
+	if len(keep) > 0 && chance(t, 30, "slkeep") {
+		ops = keep
+	}
+	if g.tab[PUSH0].Defined && chance(t, 25, "slpush0") {
+		ops = []byte{PUSH0}
+	}
+	if len(ops) > 0 {
+		op := ops[uniform(t, 0, len(ops)-1, "slop")]
+		c.a.Op(op)
+		c.h += g.tab[op].Pushes - g.tab[op].Pops
+	}
+	// consume two and record that this point was reached
+	c.a.Op(SSTORE)
+	c.h -= 2
+	for c.h > 14 {
+		c.a.Op(POP)
+		c.h--
+	}
+}
+
 // genCode generates one program.
 func (g *progGen) genCode(depth, snippets int) []byte {
 	code, _ := g.genCodeSites(depth, snippets)
@@ -913,6 +961,9 @@ func (g *progGen) genCodeSites(depth, snippets int) ([]byte, []JSite) {
 	c := &codeGen{g: g, a: NewAsm(), depth: depth}
 	for i := 0; i < snippets; i++ {
 		c.snippet(depth < 2)
+	}
+	if depth == 0 && !g.cfg.Hermetic && chance(g.t, 4, "stacklimit") {
+		c.stackLimit()
 	}
 	c.terminator()
 	for _, d := range c.datas {
@@ -1036,6 +1087,10 @@ func GenProgScenarioSites(t *rapid.T, cfg ProgCfg) (*Scenario, map[common.Addres
 	ninv := uniform(t, 1, 3, "ninv")
 	for i := 0; i < ninv; i++ {
 		sc.Invs = append(sc.Invs, g.genInvocation())
+	}
+	// a host may re-target one EVM with Reset between messages
+	for i := 1; i < len(sc.Invs); i++ {
+		sc.Invs[i].Reset = chance(t, 30, "reset")
 	}
 	return sc, g.Sites
 }
